@@ -233,8 +233,9 @@ func (t *TupleType) IsAssignable(o px.Type, g px.Guard) bool {
 		if top == 0 || o.size.Max() == 0 {
 			return true
 		}
+		// A declared type at a position that no instance of the array can fill describes no element
 		elemType := o.typ
-		for idx := 0; idx < top; idx++ {
+		for idx := 0; idx < top && int64(idx) < o.size.Max(); idx++ {
 			if !GuardedIsAssignable(t.types[idx], elemType, g) {
 				return false
 			}
@@ -247,11 +248,12 @@ func (t *TupleType) IsAssignable(o px.Type, g px.Guard) bool {
 		}
 
 		if len(t.types) > 0 {
-			top := len(o.types)
-			if top == 0 {
+			oTypes := o.types
+			if len(oTypes) == 0 {
 				// The other tuple is untyped. Its instances are arrays of anything within its size
-				return o.givenOrActualSize.max == 0
+				oTypes = []px.Type{anyTypeDefault}
 			}
+			top := len(oTypes)
 
 			// Compare every position that an instance of the other tuple can have. Both tuples repeat
 			// their last type for positions beyond their declared types.
@@ -269,7 +271,7 @@ func (t *TupleType) IsAssignable(o px.Type, g px.Guard) bool {
 				if oIdx > oLast {
 					oIdx = oLast
 				}
-				if !GuardedIsAssignable(t.types[myIdx], o.types[oIdx], g) {
+				if !GuardedIsAssignable(t.types[myIdx], oTypes[oIdx], g) {
 					return false
 				}
 			}
